@@ -164,7 +164,7 @@ func dstClass(k *decCase, exact int) string {
 	return "dst=roomy"
 }
 
-func fnv(h uint64, n int, out []byte) uint64 {
+func fnvMix(h uint64, n int, out []byte) uint64 {
 	x := uint64(int64(n))
 	for i := 0; i < 8; i++ {
 		h = (h ^ (x & 0xff)) * 1099511628211
@@ -212,7 +212,7 @@ func (e *decEnv) eval(prop string, k *decCase) *ev.Finding {
 		if r.panic != "" {
 			n = -99
 		}
-		e.digGo = fnv(e.digGo, n, outs[1][0])
+		e.digGo = fnvMix(e.digGo, n, outs[1][0])
 		r = res[0][0]
 		n = r.n
 		if n < 0 {
@@ -221,7 +221,7 @@ func (e *decEnv) eval(prop string, k *decCase) *ev.Finding {
 		if r.panic != "" {
 			n = -99
 		}
-		e.digNative = fnv(e.digNative, n, outs[0][0])
+		e.digNative = fnvMix(e.digNative, n, outs[0][0])
 	}
 	mk := func(sig, what string) *ev.Finding {
 		return &ev.Finding{Sig: sig, What: fmt.Sprintf("%s; fam=%s src=%x dst_len=%d dict_len=%d ref=%s", what, k.Fam, src, k.DstLen, k.DictLen, st), Case: k.frozen()}
